@@ -863,22 +863,16 @@ pub fn c07(v: &View, out: &mut Vec<String>) -> C07Stats {
         } else if ty == T::StringExprText || (ty == T::StringExprEnd && txt != "\"") {
             Some(unquote_doubled(txt, '"'))
         } else if ty == T::MacroString {
-            match parens.last() {
-                Some(&(true, clean)) => {
-                    let (un, any) = unquote_pct(txt);
-                    if clean {
-                        Some((un, any))
-                    } else {
-                        // a macro statement occurred inside this %str(...): the token may stem
-                        // from the statement's own scanner; only a present payload is checked
-                        if got.is_some() {
-                            Some((un, true))
-                        } else {
-                            None
-                        }
-                    }
-                }
-                _ => Some((txt.to_string(), false)),
+            // Only the %str/%nrstr scanner attaches payloads to macro strings. Parentheses of
+            // macro expressions are not necessarily balanced in the stream (an expression cut
+            // short by ';'), so the stack is trusted only where it cannot be wrong: empty = no
+            // %str is open; top hidden and no macro statement since = directly inside %str.
+            let (un, any) = unquote_pct(txt);
+            match (got.is_some(), parens.last()) {
+                (true, None) => Some((txt.to_string(), false)),
+                (true, Some(_)) => Some((un, any)),
+                (false, Some(&(true, true))) => Some((un, any)),
+                (false, _) => None,
             }
         } else {
             // no other token may carry a string payload
